@@ -167,6 +167,14 @@ def check(ctx, run):
         if not ok and len(heads) < nargs and all(arms_ok(v) for v in heads.values()):
             run.undecided('R13.4', fn, 'dispatch', f'only {len(heads)} of {nargs} argument headers are dispatched in this function (the other in a helper?): not decided', f'{b.file}:{b.line}')
             continue
+        if not ok and len(heads) == nargs and all({0x80000000, 'otherwise'} <= v and v <= {0x80000000, 0x40000000, 0x20000000, 'otherwise'} for v in heads.values()):
+            # array arm + fall-through only: the object / scalar distinction is made by a helper the fall-through arm calls with the document
+            # (whether that helper reads a container as a scalar is R06.17's question)
+            helper_ = sorted({canon(callee_name(t_)).split('::')[-1] for _, t_ in b.calls() if (t_['callee'].get('resolved_local') and t_['callee'].get('resolved', '').startswith('functions::')
+                              and not report.is_baseline_fn(t_['callee'].get('resolved', '')))})
+            if helper_:
+                run.undecided('R13.4', fn, 'dispatch', f'only the array kind is dispatched here; a non-array document goes to {helper_[0]}(), which decides between object and scalar: not decided by this table', f'{b.file}:{b.line}')
+                continue
         (run.proved if ok else run.violation)('R13.4', fn, 'dispatch', 'array / object / scalar arms for every argument' if ok else f'header dispatch arms: {heads}', f'{b.file}:{b.line}')
     # ---- R13.5 provenance: pushes from arg 1, lookup structure from arg 2
     for fn in FNS[1:]:
@@ -232,6 +240,7 @@ def check(ctx, run):
     pub = {'functions::array_distinct', 'functions::array_intersection', 'functions::array_except', 'functions::array_overlap'}
     dispatch.r11_1(ctx, run, rule='R13.7/R11.1', only=pub)
     dispatch.r11_3(ctx, run, rule='R13.7/R11.3', only=set(pub))
+    dispatch.r11_7(ctx, run, rule='R13.7/R11.7', only=set(pub))
     from rules import walkers as _walkers
     _walkers.w_pair(ctx, run, 'R13.9/R05.14', only=lambda p_: p_.startswith('functions::array_'))
     from rules import editing as _editing
